@@ -116,6 +116,9 @@ func parseTag(tag reflect.StructTag) (has bool, bit int, inBits, ignore bool) {
 	return true, bit, inBits, false
 }
 
+// rows per generated Lean definition (registryN, fieldNamesN, allFieldsN)
+const chunk = 40
+
 var cached []Ctor
 
 // All returns every registered constructor, sorted by id.
@@ -235,7 +238,6 @@ func LeanSource() string {
 	var b strings.Builder
 	b.WriteString("/- GENERATED on every run from the working tree of the repository by harness/cmd/regdump\n   (reflection over tl.VerifRegistry). Never committed. -/\nimport Mtv.TL.Types\nnamespace Mtv.Gen\nopen Mtv.TL\n\n")
 	all := All()
-	const chunk = 40
 	n := 0
 	for i := 0; i < len(all); i += chunk {
 		fmt.Fprintf(&b, "def registry%d : List CtorDesc := [\n", n)
@@ -355,5 +357,54 @@ func LeanSource() string {
 	}
 	b.WriteString("]\n\ndef fieldNames : List (Nat × List (Nat × Nat)) := fieldNamesChunks.flatten\n\n")
 	fmt.Fprintf(&b, "def registryChunkCount : Nat := %d\n\nend Mtv.Gen\n", n)
+	return b.String()
+}
+
+// LeanFieldsSource renders, for C13, EVERY field of every registered struct type (reflect NumField: exported
+// or not, whatever its tag — also those `registryN` / `fieldNamesN` leave out because the encoder ignores
+// them) with its struct tag as written; name and tag as byte strings (Mtv.Schema.BStr: length, big-endian
+// value). Same chunks and order as `registryN`. C13 requires this list to be the codec's field list and each
+// tag to be exactly the text its flag stands for: a field the schema does not define cannot hide behind a tag.
+// Kept out of Registry.lean so that file (and the Lake cache of its other users) does not change.
+func LeanFieldsSource() string {
+	var b strings.Builder
+	b.WriteString("/- GENERATED on every run from the working tree of the repository by harness/cmd/c13fields\n   (reflection over tl.VerifRegistry). Never committed. -/\nnamespace Mtv.Gen\n\n")
+	all := All()
+	n := (len(all) + chunk - 1) / chunk
+	for k := 0; k < n; k++ {
+		fmt.Fprintf(&b, "def allFields%d : List (Nat × List ((Nat × Nat) × (Nat × Nat))) := [\n", k)
+		end := (k + 1) * chunk
+		if end > len(all) {
+			end = len(all)
+		}
+		for j := k * chunk; j < end; j++ {
+			var ns []string
+			if st := all[j].Type; st.Kind() == reflect.Ptr && st.Elem().Kind() == reflect.Struct {
+				for i := 0; i < st.Elem().NumField(); i++ {
+					f := st.Elem().Field(i)
+					tag := "0"
+					if f.Tag != "" {
+						tag = fmt.Sprintf("0x%x", []byte(f.Tag))
+					}
+					ns = append(ns, fmt.Sprintf("((%d, 0x%x), (%d, %s))", len(f.Name), []byte(f.Name), len(f.Tag), tag))
+				}
+			}
+			sep := ","
+			if j == end-1 {
+				sep = ""
+			}
+			fmt.Fprintf(&b, "  (0x%08x, [%s])%s\n", all[j].ID, strings.Join(ns, ", "), sep)
+		}
+		b.WriteString("]\n\n")
+	}
+	b.WriteString("def allFieldsChunks : List (List (Nat × List ((Nat × Nat) × (Nat × Nat)))) := [")
+	for k := 0; k < n; k++ {
+		if k > 0 {
+			b.WriteString(", ")
+		}
+		fmt.Fprintf(&b, "allFields%d", k)
+	}
+	b.WriteString("]\n\ndef allFields : List (Nat × List ((Nat × Nat) × (Nat × Nat))) := allFieldsChunks.flatten\n\n")
+	b.WriteString("end Mtv.Gen\n")
 	return b.String()
 }
